@@ -69,8 +69,10 @@ func (c *DecoratorCfg) Object() Object {
 	return Object{"apiVersion": "metacontroller.k8s.io/v1alpha1", "kind": "DecoratorController", "metadata": Object{"name": c.Name}, "spec": spec}
 }
 
-func (c *DecoratorCfg) FinalizerName() string { return "metacontroller.io/decoratorcontroller-" + c.Name }
-func (c *DecoratorCfg) QueueName() string     { return "DecoratorController-" + c.Name }
+func (c *DecoratorCfg) FinalizerName() string {
+	return "metacontroller.io/decoratorcontroller-" + c.Name
+}
+func (c *DecoratorCfg) QueueName() string { return "DecoratorController-" + c.Name }
 func (c *DecoratorCfg) Marker() (string, string) {
 	return "metacontroller.k8s.io/decorator-controller", c.Name
 }
